@@ -292,3 +292,52 @@ class EntryPoints(Obligation):
         if w not in self.seen: self.seen.add(w); rec['wit'].append(w)
         rec['sample']={'scenario':scn,'expect':pred}
         return rec
+
+class TextWhitespace(Obligation):
+    """the crate's byte-level entry points (`MetadataWrapper::try_from_bytes`, `MetablockBuilder::from_raw_metadata` behind it) on
+    the same document written with different insignificant white space: compact, leading / trailing blanks and line feeds, CR LF,
+    pretty-printed.  All spellings are accepted or rejected alike and yield equal values (text layer: the serde_json model)."""
+    name='C17.text_whitespace'
+    hash_order='fixed'
+    def __init__(self,seed=0,known=(),**kw):
+        self.seed=seed
+        self.bounds={'documents':'a link and a layout (valid), and a link with a member missing (invalid)','spellings':'compact; one leading space / line feed / tab / CR LF + two spaces; trailing line feed; pretty-printed (2-space indent); blanks around every colon and comma',
+                     'entry point':'MetadataWrapper::try_from_bytes (byte slice)'}
+        self.witnesses=['accepted_in_every_spelling','rejected_in_every_spelling']; self.seen=set()
+    def setup(self,eng,tier):
+        self.eng=eng; self.fn=eng.find_method(None,'MetadataWrapper','try_from_bytes')
+    def entry(self,eng):
+        def go(run,args):
+            outs=[]
+            for t in args[0]:
+                r=eng.call_fn(run,self.fn,[Ref(Cell(Str(list(t),False)))])
+                outs.append(deref(r))
+            return outs
+        return go
+    def mk_args(self,run):
+        import json as _j
+        from .C14 import ADV_DOCS
+        which=run.pick(3,'doc')
+        doc=[ADV_DOCS['link'][1](),ADV_DOCS['layout'][1](),{k:v for k,v in ADV_DOCS['link'][1]().items() if k!='name'}][which]
+        c=_j.dumps(doc,separators=(',',':'),sort_keys=True,ensure_ascii=False)
+        texts=[c,' '+c,'\n'+c,'\t'+c,'\r\n  '+c,c+'\n',_j.dumps(doc,indent=2,sort_keys=True,ensure_ascii=False),_j.dumps(doc,separators=(' , ',' : '),sort_keys=True,ensure_ascii=False)]
+        return [[t.encode() for t in texts]],{'texts':texts,'which':which}
+    def check(self,run,out,g):
+        rec={'outcome':'?','viol':None,'wit':[],'sample':None,'obl':1}
+        scn={'kind':'text_whitespace','texts':g['texts']}
+        if out[0]!='ret':
+            rec['outcome']='panic'; rec['viol']={'kind':'panic','known_key':None,'scenario':scn,'predicted':'panic','what':'try_from_bytes panics: '+str(out[1])[:200]}; return rec
+        outs=out[1]; kinds=['ok' if o.vname=='Ok' else 'err' for o in outs]; rec['outcome']='/'.join(kinds)
+        if len(set(kinds))>1:
+            bad=[i for i,k in enumerate(kinds) if k!=kinds[0]]
+            rec['viol']={'kind':'whitespace_dependent_decoding','known_key':None,'scenario':scn,'predicted':'/'.join(kinds),'what':'the same document is accepted in one white-space spelling and rejected in another (spellings %s differ from the compact one)'%bad}; return rec
+        if kinds[0]=='ok':
+            from mirsym.models import val_eq, b_and
+            eqs=b_and(*[val_eq(outs[0].f[0],o.f[0]) for o in outs[1:]])
+            r,m=run.check_sat(z3.Not(eqs.z()))
+            if r==z3.sat:
+                rec['viol']={'kind':'whitespace_dependent_value','known_key':None,'scenario':scn,'predicted':'/'.join(kinds),'confirm':{'values_equal':False},'what':'the same document decodes to different values depending on its white space'}; return rec
+        w='accepted_in_every_spelling' if kinds[0]=='ok' else 'rejected_in_every_spelling'
+        if w not in self.seen: self.seen.add(w); rec['wit'].append(w)
+        rec['sample']={'scenario':scn,'expect':'/'.join(kinds),'confirm':{'values_equal':True}}
+        return rec
